@@ -1,0 +1,177 @@
+//go:build verif
+
+package main
+
+// Verification hook (build tag verif): drives the real get_tx_list JSON-RPC handler over HTTP on a real LMDB store
+// and writes what it serves, for comparison with the page model (coq/Model/Paging.v of the verification framework).
+// Runs only when VERIF_OUT names an output directory.
+
+import (
+	"bytes"
+	"encoding/binary"
+	"encoding/json"
+	"fmt"
+	"io"
+	"net"
+	"net/http"
+	"os"
+	"path/filepath"
+	"strings"
+	"testing"
+	"time"
+
+	"github.com/virel-project/virel-blockchain/v3/adb"
+	"github.com/virel-project/virel-blockchain/v3/adb/lmdb"
+	"github.com/virel-project/virel-blockchain/v3/address"
+	"github.com/virel-project/virel-blockchain/v3/blockchain"
+	"github.com/virel-project/virel-blockchain/v3/chaintype"
+	"github.com/virel-project/virel-blockchain/v3/logger"
+	"github.com/virel-project/virel-blockchain/v3/p2p"
+)
+
+func TestVerifPaging(t *testing.T) {
+	out := os.Getenv("VERIF_OUT")
+	if out == "" {
+		t.Skip("VERIF_OUT not set")
+	}
+	dir := t.TempDir()
+	db, err := lmdb.New(dir+"/lmdb/", 0o700, logger.DiscardLog)
+	if err != nil {
+		t.Fatal(err)
+	}
+	blockchain.Log.SetLogLevel(0)
+	bc := blockchain.New(dir, db)
+	bc.P2P = &p2p.P2P{Connections: map[string]*p2p.Connection{}}
+	bc.Stratum = nil
+
+	// histories of various lengths: one address per length, entry i holds the id i in its first 8 bytes
+	lengths := []uint64{0, 1, 2, 24, 25, 26, 49, 50, 51, 74, 75, 76, 99, 100, 101, 137, 250, 251}
+	thorough := os.Getenv("VERIF_TIER") == "thorough"
+	if thorough {
+		for n := uint64(3); n < 130; n++ {
+			lengths = append(lengths, n)
+		}
+	}
+	addrOf := func(n uint64, outgoing bool) address.Address {
+		var a address.Address
+		a[0] = 0x77
+		if outgoing {
+			a[1] = 1
+		}
+		binary.LittleEndian.PutUint64(a[2:], n+1)
+		return a
+	}
+	err = bc.DB.Update(func(txn adb.Txn) error {
+		for _, n := range lengths {
+			for _, outgoing := range []bool{false, true} {
+				a := addrOf(n, outgoing)
+				st := &chaintype.State{}
+				if outgoing {
+					st.LastNonce = n
+				} else {
+					st.LastIncoming = n
+				}
+				if err := bc.SetState(txn, a, st); err != nil {
+					return err
+				}
+				for i := uint64(1); i <= n; i++ {
+					var id [32]byte
+					binary.LittleEndian.PutUint64(id[:], i)
+					if outgoing {
+						err = bc.SetTxTopoOut(txn, id, a, i)
+					} else {
+						err = bc.SetTxTopoInc(txn, id, a, i)
+					}
+					if err != nil {
+						return err
+					}
+				}
+			}
+		}
+		return nil
+	})
+	if err != nil {
+		t.Fatal(err)
+	}
+
+	ln, err := net.Listen("tcp", "127.0.0.1:0")
+	if err != nil {
+		t.Fatal(err)
+	}
+	port := ln.Addr().(*net.TCPAddr).Port
+	ln.Close()
+	startRpc(bc, "127.0.0.1", uint16(port), false)
+	url := fmt.Sprintf("http://127.0.0.1:%d/", port)
+	call := func(a address.Address, typ string, page uint64) (ids []uint64, maxPage uint64, ok bool) {
+		body, _ := json.Marshal(map[string]any{"jsonrpc": "2.0", "id": 1, "method": "get_tx_list",
+			"params": map[string]any{"address": a.Integrated().String(), "transfer_type": typ, "page": page}})
+		var resp *http.Response
+		for try := 0; try < 50; try++ {
+			resp, err = http.Post(url, "application/json", bytes.NewReader(body))
+			if err == nil {
+				break
+			}
+			time.Sleep(100 * time.Millisecond)
+		}
+		if err != nil {
+			t.Fatal(err)
+		}
+		defer resp.Body.Close()
+		raw, _ := io.ReadAll(resp.Body)
+		var r struct {
+			Result *struct {
+				Transactions []string `json:"transactions"`
+				MaxPage      uint64   `json:"max_page"`
+			} `json:"result"`
+		}
+		if json.Unmarshal(raw, &r) != nil || r.Result == nil {
+			return nil, 0, false
+		}
+		for _, h := range r.Result.Transactions {
+			var b [32]byte
+			fmt.Sscanf(h, "%x", &b)
+			dec := make([]byte, 32)
+			for i := 0; i < 32 && 2*i+1 < len(h); i++ {
+				fmt.Sscanf(h[2*i:2*i+2], "%02x", &dec[i])
+			}
+			ids = append(ids, binary.LittleEndian.Uint64(dec[:8]))
+		}
+		return ids, r.Result.MaxPage, true
+	}
+
+	var cases, records []string
+	classes := map[string]int{}
+	for _, n := range lengths {
+		maxp := uint64(0)
+		if n > 0 {
+			maxp = (n - 1) / 25
+		}
+		for _, outgoing := range []bool{false, true} {
+			typ := "incoming"
+			if outgoing {
+				typ = "outgoing"
+			}
+			for page := uint64(0); page <= maxp+2; page++ {
+				ids, mp, ok := call(addrOf(n, outgoing), typ, page)
+				idl := []string{}
+				for _, x := range ids {
+					idl = append(idl, fmt.Sprint(x))
+				}
+				cases = append(cases, fmt.Sprintf("CPage %d %d %v [%s] %d", n, page, strings.ToLower(fmt.Sprint(ok)), strings.Join(idl, "; "), mp))
+				cl := fmt.Sprintf("page/%s/n=%d/rel=%d", typ, min(n, 60), int64(page)-int64(maxp))
+				classes[cl]++
+				rec, _ := json.Marshal(map[string]any{"class": cl, "data": map[string]any{"n": n, "page": page, "type": typ, "ids": ids, "max_page": mp, "ok": ok}})
+				records = append(records, string(rec))
+			}
+		}
+	}
+	var sb strings.Builder
+	sb.WriteString("Definition chunk_0 : list c17p_case := [\n" + strings.Join(cases, ";\n") + "].\nDefinition cases : list c17p_case := chunk_0.\n")
+	os.MkdirAll(out, 0o755)
+	os.WriteFile(filepath.Join(out, "paging_0.cases"), []byte(sb.String()), 0o644)
+	os.WriteFile(filepath.Join(out, "paging.records.jsonl"), []byte(strings.Join(records, "\n")+"\n"), 0o644)
+	meta, _ := json.Marshal(map[string]any{"evaluations": len(cases), "shards": 1, "shard_size": len(cases) + 1, "classes": classes,
+		"distinct_nontrivial": len(classes), "samples": []any{map[string]any{"kind": "page", "example": cases[len(cases)/2]}},
+		"rule": "get_tx_list over HTTP on a real LMDB store: histories of lengths around the page-size multiples, incoming and outgoing, every page 0..maxPage+2"})
+	os.WriteFile(filepath.Join(out, "paging.meta.json"), meta, 0o644)
+}
